@@ -142,6 +142,7 @@ def gen_cases(tier, seed):
               {"shape": ["LL"], "zero_first": True, "singular": True}, {"shape": ["LL", "L"], "zero_first": True, "singular": True},
               {"reloaded": True, "shape": ["LL"]}, {"reloaded": True, "shape": ["LLL"]},
               {"bareS": True, "shape": ["L", "L"]}, {"bareS": True, "shape": ["LL", "L"]}, {"bareS": True, "shape": ["L", "LL"]},
+              {"manypd": True, "bigcount": True, "shape": ["L", "L", "L"]},
               {"manypd": True, "shape": ["L", "L", "L"]}, {"manypd": True, "shape": ["LL", "L"]}, {"manypd": True, "shape": ["LLL"]}]
     for k in range(n):
         cases.append({"id": "expr/%04d" % k, "k": k, "seed": seed, "force": forces[k % len(forces)],
@@ -178,7 +179,7 @@ def leaf_parameters(factor, rng, seedk, dim, want_zero=False, want_pd=True, want
         npd = min(len(cand), int(rng.integers(0, 3)), i.parameters.max_pd)
         if force_npd:
             cand = [p for p in cand if p.type == "volume"] + [p for p in cand if p.type != "volume"]
-            npd = min(len(cand), force_npd, i.parameters.max_pd)
+            npd = min(len(cand), abs(force_npd), i.parameters.max_pd)
         for p in cand[:npd]:
             if p.type == "orientation":
                 sas.add_pd(pars, p, "gaussian", int(rng.integers(2, 5)), float(rng.uniform(3, 20)), 2.0)
@@ -189,7 +190,7 @@ def leaf_parameters(factor, rng, seedk, dim, want_zero=False, want_pd=True, want
                 w = min(float(rng.uniform(0.05, 0.2)), 0.9*room/2.0)
                 if w > 0:
                     sas.add_pd(pars, p, ["gaussian", "schulz", "lognormal", "uniform"][int(rng.integers(4))],
-                               int(rng.integers(2, 6)), w, 2.0)
+                               40 if (force_npd or 0) < 0 else int(rng.integers(2, 6)), w, 2.0)
         if npd:
             tags.add("pd")
     if want_empty and "@" not in factor:
@@ -317,7 +318,8 @@ def run_case(case, rec):
                                           want_mag=want_mag and not (partial_mag and (ti + fi) % 2 == 1),
                                           want_empty=bool((case.get("force") or {}).get("empty")) and ti == len(terms) - 1 - (case["k"] % 2)
                                           and fi == 0,
-                                          force_npd=2 if (case.get("force") or {}).get("manypd") else None)
+                                          force_npd=(-2 if (case.get("force") or {}).get("bigcount") else 2)
+                                          if (case.get("force") or {}).get("manypd") else None)
             row.append((f, i, lp, tags))
             tags_all.append(tags)
         leaves.append(row)
@@ -411,6 +413,18 @@ def run_case(case, rec):
     ctx = {"expr": expr, "dim": dim, "pars": cpars, "q": qv, "parts": [(f, I) for f, I in parts_I]}
     try:
         I = evaluate(expr, cpars, qv)
+    except OverflowError as exc:
+        # listed finding: the combined table's call details hold the product of ALL components' mesh sizes in a 32-bit
+        # field, although no kernel ever walks that combined mesh; classified only when that product exceeds 2^31 - 1
+        total = 1
+        for kk, vv in cpars.items():
+            if kk.endswith("_pd_n") and vv > 1 and cpars.get(kk[:-2], 0):
+                total *= int(vv)
+        rec.check("equals_stated_combination", False,
+                  dict(ctx, note="mixture refused although every part evaluates alone: %r" % (exc,), combined_mesh_points=total),
+                  key="C08/combined-mesh-size-overflows-int32" if total > 2**31 - 1 and "int32" in repr(exc) else None)
+        rec.bucket("dispersity:combined-mesh-beyond-2^31")
+        return
     except NotImplementedError as exc:
         if not refused:
             # every part evaluates alone, so the stated combination exists and the mixture must produce it
